@@ -287,6 +287,12 @@ static void set_sample_end(struct context_data *ctx, int voc, int end)
 	}
 }
 
+#ifdef LIBXMP_VERIF
+/* Verification hook H2: told about every loop wrap-around patch (1: active,
+ * 2: skipped) and restore (0) the mixer performs. */
+void (*libxmp_verif_wraplog)(int what, void *sptr, int start, int end) = NULL;
+#endif
+
 /* Back up sample data before and after loop and replace it for interpolation.
  * TODO: if higher order interpolation than spline is added, the copy needs to
  *       properly wrap around the loop data (modulo) for correct small loops.
@@ -301,8 +307,16 @@ static void init_sample_wraparound(struct mixer_data *s, struct loop_data *ld,
 
 	if (!vi->sptr || s->interp == XMP_INTERP_NEAREST || (~xxs->flg & XMP_SAMPLE_LOOP)) {
 		ld->active = 0;
+#ifdef LIBXMP_VERIF
+		if (libxmp_verif_wraplog)
+			libxmp_verif_wraplog(2, vi->sptr, vi->start, vi->end);
+#endif
 		return;
 	}
+#ifdef LIBXMP_VERIF
+	if (libxmp_verif_wraplog)
+		libxmp_verif_wraplog(1, vi->sptr, vi->start, vi->end);
+#endif
 
 	ld->sptr = vi->sptr;
 	ld->start = vi->start;
@@ -364,6 +378,10 @@ static void reset_sample_wraparound(struct loop_data *ld)
 	int prologue_num = ld->prologue_num;
 	int epilogue_num = ld->epilogue_num;
 
+#ifdef LIBXMP_VERIF
+	if (libxmp_verif_wraplog)
+		libxmp_verif_wraplog(0, ld->active ? ld->sptr : NULL, 0, 0);
+#endif
 	if (!ld->active)
 		return;
 
@@ -381,6 +399,20 @@ static void reset_sample_wraparound(struct loop_data *ld)
 		memcpy(end, ld->epilogue, epilogue_num);
 	}
 }
+
+#ifdef LIBXMP_VERIF
+/* Verification hook H2: exported pass-through to the static patch/restore pair. */
+void libxmp_verif_wraparound(struct mixer_data *s, struct mixer_voice *vi,
+			     struct xmp_sample *xxs, int restore)
+{
+	static struct loop_data ld;
+	if (restore) {
+		reset_sample_wraparound(&ld);
+	} else {
+		init_sample_wraparound(s, &ld, vi, xxs);
+	}
+}
+#endif
 
 static int has_active_sustain_loop(struct context_data *ctx, struct mixer_voice *vi,
 				   struct xmp_sample *xxs)
